@@ -59,11 +59,11 @@ type Val struct {
 	X string `json:"x,omitempty"` // hex of text/blob bytes
 }
 
-func vNull() Val           { return Val{K: "n"} }
-func vInt(i int64) Val     { return Val{K: "i", I: i} }
-func vReal(f float64) Val  { return Val{K: "r", F: math.Float64bits(f)} }
-func vText(s string) Val   { return Val{K: "t", X: hex.EncodeToString([]byte(s))} }
-func vBlob(b []byte) Val   { return Val{K: "b", X: hex.EncodeToString(b)} }
+func vNull() Val            { return Val{K: "n"} }
+func vInt(i int64) Val      { return Val{K: "i", I: i} }
+func vReal(f float64) Val   { return Val{K: "r", F: math.Float64bits(f)} }
+func vText(s string) Val    { return Val{K: "t", X: hex.EncodeToString([]byte(s))} }
+func vBlob(b []byte) Val    { return Val{K: "b", X: hex.EncodeToString(b)} }
 func (v Val) Real() float64 { return math.Float64frombits(v.F) }
 func (v Val) Bytes() []byte { b, _ := hex.DecodeString(v.X); return b }
 
